@@ -213,6 +213,56 @@ func asItems(vs []btree.Item) ([]Item, bool) {
 	return out, true
 }
 
+// itemCodec says how a part stores the model's (key, version) items in a tree:
+// as the comparable Item, or as SItem, whose slice field makes == panic - the
+// tree is documented to order items by Less alone, so every entry point has to
+// work with both.
+type itemCodec struct {
+	name string
+	mk   func(k, v int) btree.Item // the item stored for (key, version)
+	key  func(k int) btree.Item    // a lookup key / pivot
+	un   func(v btree.Item) (Item, bool)
+}
+
+var plainCodec = itemCodec{
+	name: "Item",
+	mk:   func(k, v int) btree.Item { return Item{k, v} },
+	key:  func(k int) btree.Item { return Item{K: k} },
+	un:   asItem,
+}
+
+var sliceCodec = itemCodec{
+	name: "SItem",
+	mk:   func(k, v int) btree.Item { return SItem{k, []int{v}} },
+	key:  func(k int) btree.Item { return SItem{K: k} },
+	un: func(v btree.Item) (Item, bool) {
+		s, ok := v.(SItem)
+		if !ok || len(s.Tag) != 1 {
+			return Item{}, false
+		}
+		return Item{s.K, s.Tag[0]}, true
+	},
+}
+
+func (cd itemCodec) pivot(k *int) btree.Item {
+	if k == nil {
+		return nil
+	}
+	return cd.key(*k)
+}
+
+func (cd itemCodec) items(vs []btree.Item) ([]Item, bool) {
+	out := make([]Item, 0, len(vs))
+	for _, v := range vs {
+		x, ok := cd.un(v)
+		if !ok {
+			return nil, false
+		}
+		out = append(out, x)
+	}
+	return out, true
+}
+
 // optStr renders an optional result (item or "nil").
 func optStr(x Item, ok bool) string {
 	if !ok {
